@@ -70,6 +70,10 @@ SPECS = {
     'ListChannels': ('seq', {'channel': TXT, '?': TXT}, (2, 3)),
 }
 
+# Last-Modified values for the chrono configuration
+CHRONO_LM = sel(b'2020-06-12T17:53:00Z', b'2020-06-12T17:53:00.25+02:00', b'', b'x', b'2020-13-40T25:61:61Z', b'-9223372036854775808', b'10000000000000000',
+                lambda I, n: v_dec(I, n), lambda I, n: [45] + v_dec(I, n, 64), lambda I, n: v_sym(I, n, 2))
+
 def instances(tier, seed):
     out = []
     TIER[0] = tier
@@ -99,6 +103,13 @@ def instances(tier, seed):
             else:
                 for m in range(0, n + 1):
                     add(m, None)
+    # the optional `chrono` configuration of mpd_client (Timestamp parses Last-Modified with chrono): every reply kind that carries
+    # a timestamp, the timestamp field first, its value from a menu of RFC 3339 texts, malformed texts and integers of any magnitude
+    for entry in ('GetPlaylists', 'Queue', 'CurrentSong', 'Find', 'ListAllIn', 'GetPlaylist'):
+        n = 2 if tier == 'quick' else 3
+        for m in range(1, n + 1):
+            out.append({'entry': entry, 'mode': 'seq', 'n': m, 'first': 'Last-Modified', 'sympos': 0, 'tier': tier, 'feat': 'chrono'})
+        out.append({'entry': entry, 'mode': 'seq', 'n': n, 'first': 'file' if entry != 'GetPlaylists' else 'playlist', 'sympos': 1, 'tier': tier, 'feat': 'chrono'})
     # assume/guarantee link: the field-name alphabet the conversions rely on (Tag::try_from(..).unwrap()) is what the real parser delivers
     out.append({'entry': 'parser-lemma', 'mode': 'lemma', 't': 'keys', 'flav': 'sync', 'seg': 'whole', 'cap': 4096, 'v': 1})
     out.append({'entry': 'parser-lemma', 'mode': 'lemma', 't': 'list', 'flav': 'async', 'seg': 'bytes', 'cap': 8, 'v': 1})
@@ -172,7 +183,8 @@ def key_items(I, k, name):
     return list(k.encode())
 
 def run_instance(payload):
-    P = engine.load_program()
+    feat = payload.get('feat')
+    P = engine.load_program(variant=feat)
     res = Result(str(payload))
     t0 = time.time()
     entry = payload['entry']; mode = payload['mode']
@@ -204,6 +216,8 @@ def run_instance(payload):
                 ty = '(' + ', '.join("mpd_client::commands::definitions::Update<'_>" for _ in range(n)) + (',)' if n == 1 else ')')
             return I.call_repo('<%s as mpd_client::commands::CommandList>::responses' % ty, [val, frames])
         kind, keys, extra = SPECS[entry]
+        if feat == 'chrono':
+            keys = dict(keys); keys['Last-Modified'] = CHRONO_LM
         fields = []
         binary = None
         if entry.startswith('AlbumArt'):
@@ -260,15 +274,21 @@ def run_instance(payload):
                 fields.append((ki, v))
         I._fields = fields; I._binary = binary
         frame = mk_frame(fields, binary)
-        r = respond(I, P, entry, frame)
-        if r.variant == 'Ok':
-            read_result(I, P, entry, r.fields[0])
+        try:
+            r = respond(I, P, entry, frame)
+            if r.variant == 'Ok':
+                read_result(I, P, entry, r.fields[0])
+        except Unsupported as e:
+            # a library call without a model: the path cannot be decided symbolically.  Before giving up (INCONCLUSIVE) the
+            # native build is run on solver-chosen inputs of the path so far, with every symbolic number pushed to its extremes
+            return ('unsupported', str(e))
         return r
 
     def setup(I):
         # the position whose value kind is symbolic in 'seq' mode (seed chosen in quick, see instances)
         I._sympos = payload.get('sympos', None)
 
+    undecided = []
     for pr in explore(P, harness, setup=setup):
         res.paths += 1
         ctx = pr.ctx
@@ -283,11 +303,26 @@ def run_instance(payload):
             if mode == 'count':
                 rec = {'entry': 'typedlist', 'kind': payload['kind'], 'n': payload['n'], 'm': payload['m']}
             else:
-                rec = {'entry': entry, 'wire': hexs(wire_of(m, I._fields or [], I._binary))}
+                rec = {'entry': entry, 'wire': hexs(wire_of(m, I._fields or [], I._binary)), 'feat': feat}
             if key:
                 res.known.setdefault(key, dict(rec, what='panic: ' + pr.error.msg[:120]))
             else:
                 res.violations.append({'what': 'panic in %s: %s' % (pr.error.where, pr.error.msg[:160]), 'input': rec})
+            res.cls('panic', nontrivial=True)
+        elif isinstance(pr.value, tuple) and pr.value[0] == 'unsupported':
+            hit = None
+            for extra in boundary_constraints(I._fields or []):
+                m = ctx.model(*extra)
+                if m is None:
+                    continue
+                rec = {'entry': entry, 'wire': hexs(wire_of(m, I._fields or [], I._binary)), 'feat': feat}
+                rep, detail = replay(rec)
+                if rep:
+                    hit = (rec, detail); break
+            if hit is None:
+                undecided.append(pr.value[1])
+                continue
+            res.violations.append({'what': 'panic (found by running the native build on boundary inputs of a path the models cannot follow: %s): %s' % (pr.value[1][:80], hit[1]), 'input': hit[0]})
             res.cls('panic', nontrivial=True)
         else:
             r = pr.value
@@ -295,12 +330,29 @@ def run_instance(payload):
             if mode == 'count':
                 res.xval_path('count ' + r.variant, replay, lambda: {'entry': 'typedlist', 'kind': payload['kind'], 'n': payload['n'], 'm': payload['m']})
             else:
-                res.xval_path('%s %s' % (entry, r.variant), replay, lambda: {'entry': entry, 'wire': hexs(wire_of(ctx.model(), I._fields or [], I._binary))})
+                res.xval_path('%s %s' % (entry, r.variant), replay, lambda: {'entry': entry, 'wire': hexs(wire_of(ctx.model(), I._fields or [], I._binary)), 'feat': feat})
             if len(res.samples) < 1 and mode != 'count':
                 res.samples.append({'entry': entry, 'reply': wire_of(ctx.model(), I._fields or [], I._binary).decode('latin1'), 'result': r.variant})
         res.take_stats(ctx.stats); ctx.stats.__init__()
+    if undecided and not res.violations:
+        raise Unsupported(undecided[0])
+    if undecided:
+        res.notes.append('%d path(s) could not be followed by the models (%s); native boundary witnesses of other such paths panic' % (len(undecided), undecided[0][:80]))
     res.wall_s = time.time() - t0
     return res.to_dict()
+
+def boundary_constraints(fields):
+    """constraint sets that push the symbolic numbers of a reply to their extremes (one witness per set)"""
+    nums = [x for _, v in fields for x in v if isinstance(x, DecRun)]
+    sets = [[]]
+    for x in nums:
+        w = x.val.size()
+        for lo in (1 << 63, (1 << 63) - 1, 10 ** 16, 1 << 32, 1 << 31):
+            if lo < (1 << w):
+                sets.append([z3.UGE(x.val, lo), z3.ULT(x.val, min(2 * lo, (1 << w) - 1))])
+        sets.append([x.val == 0])
+        sets.append([x.val == (1 << min(w, 64)) - 1])
+    return sets[:40]
 
 def replay(rec):
     inp = rec.get('input') or rec
@@ -310,7 +362,7 @@ def replay(rec):
     if inp.get('entry') == 'typedlist':
         out = run_replay(['typedcount', inp['kind'], str(inp['n']), str(inp['m'])])
     else:
-        out = run_replay(['resp', inp['entry'], inp['wire']])
+        out = run_replay(['resp', inp['entry'], inp['wire']], chrono=inp.get('feat') == 'chrono')
     if 'panic' in out:
         return True, 'native run panics: ' + unhex(out['panic'][0]).decode('utf-8', 'replace')[:100]
     return False, 'native run does not panic: %s' % {k: v for k, v in out.items() if not k.startswith('_')}
